@@ -45,6 +45,7 @@ type Spec struct {
 	AllowInit   []string          `json:"allow_init"`
 	DenyPkgs    []string          `json:"deny_pkgs"`
 	AllowPkgs   []string          `json:"allow_pkgs"`
+	ExtraPackages []string        `json:"extra_packages"`
 	Replace     map[string]string `json:"replace"` // real function -> harness function
 	Explanation string            `json:"explanation"`
 	Bounds      map[string]string `json:"bounds"`
@@ -129,8 +130,11 @@ func loadProgram(spec *Spec, ov map[string][]byte) (*ssa.Program, *ssa.Package, 
 		BuildFlags: []string{"-tags=verif"},
 		Env:        append(os.Environ(), "GOFLAGS=-mod=mod", "GOPROXY=off"),
 	}
-	pat := "./" + spec.Package
-	pkgs, err := packages.Load(cfg, pat)
+	pats := []string{"./" + spec.Package}
+	for _, ep := range spec.ExtraPackages {
+		pats = append(pats, "./"+ep)
+	}
+	pkgs, err := packages.Load(cfg, pats...)
 	if err != nil {
 		return nil, nil, err
 	}
@@ -148,7 +152,31 @@ func loadProgram(spec *Spec, ov map[string][]byte) (*ssa.Program, *ssa.Package, 
 	if len(spkgs) == 0 || spkgs[0] == nil {
 		return nil, nil, fmt.Errorf("no SSA package")
 	}
+	// the primary package is the one whose import path matches spec.Package
+	want := modPath
+	if spec.Package != "." && spec.Package != "" {
+		want = modPath + "/" + spec.Package
+	}
+	for _, sp := range spkgs {
+		if sp != nil && sp.Pkg.Path() == want {
+			return prog, sp, nil
+		}
+	}
 	return prog, spkgs[0], nil
+}
+
+// findEntry resolves "Func" (primary package) or "pkg/dir:Func".
+func findEntry(prog *ssa.Program, primary *ssa.Package, name string) (*ssa.Function, string) {
+	if i := strings.IndexByte(name, ':'); i >= 0 {
+		dir, fn := name[:i], name[i+1:]
+		for _, p := range prog.AllPackages() {
+			if p.Pkg.Path() == modPath+"/"+dir {
+				return p.Func(fn), dir
+			}
+		}
+		return nil, dir
+	}
+	return primary.Func(name), ""
 }
 
 func minInt(a, b int) int {
@@ -280,7 +308,7 @@ func cmdRun(args []string) int {
 	assumes := map[string]bool{}
 	budget := time.Duration(ts.TimeoutS) * time.Second
 	for _, en := range entries {
-		fn := pkg.Func(en)
+		fn, _ := findEntry(prog, pkg, en)
 		if fn == nil {
 			problems = append(problems, "entry not found: "+en)
 			continue
@@ -461,7 +489,10 @@ var defaultDeny = []string{"reflect", "internal/reflectlite", "os", "net", "sysc
 func reachLabels(hdir, entry string) []string {
 	// labels are declared in the harness as verif.Reach("label") ; collect those inside the file textually
 	var out []string
-	files, _ := filepath.Glob(filepath.Join(hdir, "*.go"))
+	if i := strings.IndexByte(entry, ':'); i >= 0 {
+		entry = entry[i+1:]
+	}
+	files, _ := filepath.Glob(filepath.Join(hdir, "*.go*"))
 	for _, f := range files {
 		b, _ := os.ReadFile(f)
 		src := string(b)
@@ -529,7 +560,11 @@ type ReplayFile struct {
 func writeReplay(spec *Spec, v *Violation) string {
 	dir := filepath.Join(verifDir, "replays")
 	os.MkdirAll(dir, 0o755)
-	rf := ReplayFile{Property: spec.Property, Entry: v.Harness, Package: spec.Package, Label: v.Label, Key: v.Key, Kind: v.Kind, Detail: v.Detail, Model: v.Model, Choices: v.Choices}
+	pkgDir, entry := spec.Package, v.Harness
+	if i := strings.IndexByte(entry, ':'); i >= 0 {
+		pkgDir, entry = entry[:i], entry[i+1:]
+	}
+	rf := ReplayFile{Property: spec.Property, Entry: entry, Package: pkgDir, Label: v.Label, Key: v.Key, Kind: v.Kind, Detail: v.Detail, Model: v.Model, Choices: v.Choices}
 	b, _ := json.MarshalIndent(rf, "", " ")
 	h := sha256.Sum256([]byte(v.Key + v.Harness))
 	p := filepath.Join(dir, fmt.Sprintf("%s-%x.json", spec.Property, h[:5]))
@@ -565,7 +600,7 @@ func nativeReplay(spec *Spec, hdir string, replayPath string) (replayOutcome, st
 	if err != nil {
 		return replayError, err.Error()
 	}
-	pkgName := packageNameOf(filepath.Join(repoDir, spec.Package))
+	pkgName := packageNameOf(filepath.Join(repoDir, rf.Package))
 	test := fmt.Sprintf(`//go:build verif
 
 package %s
@@ -582,7 +617,7 @@ func TestVerifReplay(t *testing.T) {
 	%s()
 }
 `, pkgName, modPath, rf.Entry)
-	ov[filepath.Join(repoDir, spec.Package, "zz_verif_replay_test.go")] = []byte(test)
+	ov[filepath.Join(repoDir, rf.Package, "zz_verif_replay_test.go")] = []byte(test)
 	repl := map[string]string{}
 	i := 0
 	for virt, content := range ov {
@@ -594,7 +629,7 @@ func TestVerifReplay(t *testing.T) {
 	ovb, _ := json.Marshal(map[string]interface{}{"Replace": repl})
 	ovPath := filepath.Join(tmp, "overlay.json")
 	os.WriteFile(ovPath, ovb, 0o644)
-	cmd := exec.Command("go", "test", "-v", "-tags", "verif", "-vet=off", "-count=1", "-overlay", ovPath, "-run", "^TestVerifReplay$", "-timeout", "120s", "./"+spec.Package)
+	cmd := exec.Command("go", "test", "-v", "-tags", "verif", "-vet=off", "-count=1", "-overlay", ovPath, "-run", "^TestVerifReplay$", "-timeout", "120s", "./"+rf.Package)
 	cmd.Dir = repoDir
 	cmd.Env = append(os.Environ(), "GOFLAGS=-mod=mod", "GOPROXY=off", "VERIF_REPLAY="+replayPath)
 	out, err := cmd.CombinedOutput()
